@@ -33,6 +33,7 @@ static long val_of(Cell const& c) { return c.v; }
 #include "common/viewreg.hpp"
 
 #include <fstream>
+#include <new>
 #include <unistd.h>
 #include <initializer_list>
 
@@ -40,12 +41,14 @@ static long val_of(int x) { return x; }
 static long val_of(long x) { return x; }
 
 constexpr long NCELL = 4096;
+constexpr long LOFF = NCELL / 2;   // offset, in longs, of the long cells from the origin
 constexpr long GUARD = 8;
 
-static std::vector<VT> g_store;
-static std::vector<long> g_lstore;
+// one allocation: NCELL cells of VT (4 bytes each) followed by NCELL cells of long, so that both element spaces are
+// addressable as typed offsets from one origin (what fancy::xptr needs)
 static VT* g_mem = nullptr;
 static long* g_lmem = nullptr;
+static_assert(sizeof(VT) == 4, "layout of the shared buffer");
 static FILE* fprog = nullptr;
 static FILE* fans = nullptr;
 static int g_internal = 0;
@@ -60,8 +63,15 @@ struct Reg { AnyView v; bool is_long = false; bool is_root = false; };
 static std::vector<Reg> regs(64);
 struct Win { long lo, hi; };
 static std::vector<Win> g_wins;
+static std::vector<Win> g_roots;   // the storages proper (no guard cells): what a bounds-tracking pointer may dereference
 
-template<multi::dimensionality_type D> auto mkl(VS<D> const& s) { return multi::subarray<long, D, long*>(s.lay, g_lmem + (s.base - g_mem)); }
+// pointer to long cell `local` in the pointer kind under test
+#if PTR_KIND == 0
+static long* lptr(long local) { return g_lmem + local; }
+#else
+static fancy::xptr<long> lptr(long local) { return fancy::xptr<long>::at(LOFF + local); }
+#endif
+template<multi::dimensionality_type D> auto mkl(VS<D> const& s) { return multi::subarray<long, D, PtrOf<long>>(s.lay, lptr(off_of(s.base))); }
 
 // the operand in the form the protocol names: v = view, c = view through pointer-to-const, r = array_ref over the whole root,
 // a = owning array holding a copy of the view
@@ -72,8 +82,8 @@ template<multi::dimensionality_type D, class F> void with_operand(char form, boo
 		if(!is_long) {
 			switch(form) {
 				case 'v': { auto v = mk(s); f(v); return; }
-				case 'c': { multi::subarray<VT, D, VT const*> c(s.lay, s.base); f(c); return; }
-				case 'r': { multi::array_ref<VT, D> r(s.base, mk(s).extensions()); f(r); return; }
+				case 'c': { multi::subarray<VT, D, PtrOf<VT const>> c(s.lay, s.base); f(c); return; }
+				case 'r': { multi::array_ref<VT, D, VPtr> r(s.base, mk(s).extensions()); f(r); return; }
 				case 'a': { multi::array<VT, D> a = mk(s); f(a); return; }
 				default: break;
 			}
@@ -81,7 +91,7 @@ template<multi::dimensionality_type D, class F> void with_operand(char form, boo
 #ifndef TRACKED
 			switch(form) {
 				case 'v': { auto v = mkl(s); f(v); return; }
-				case 'r': { multi::array_ref<long, D> r(g_lmem + (s.base - g_mem), mk(s).extensions()); f(r); return; }
+				case 'r': { multi::array_ref<long, D, PtrOf<long>> r(lptr(off_of(s.base)), mk(s).extensions()); f(r); return; }
 				case 'a': { multi::array<long, D> a = mkl(s); f(a); return; }
 				default: break;
 			}
@@ -184,7 +194,6 @@ static void q_rest() {
 
 // mutating operations ----------------------------------------------------------------------------------------------
 template<class V, class S> void check_same(V const& v, S const& s) {
-	if(static_cast<void const*>(v.base()) != static_cast<void const*>(s.base) && v.num_elements() != 0) { /* long views are rebuilt on the long buffer */ }
 	if(!(v.layout() == s.lay)) internal("layout of the destination changed");
 }
 
@@ -199,12 +208,12 @@ static void x_assign(char fd, int rd, char fs, int rs) {
 				with_operand(fs, S.is_long, ss, [&](auto& src) { dst = src; });
 			};
 			if(!D.is_long) {
-				if(fd == 'v') { auto v = mk(sd); auto* b0 = v.base(); with_src(v); if(v.base() != b0) internal("base of the destination changed"); check_same(v, sd); }
-				else if(fd == 'r') { multi::array_ref<VT, std::decay_t<decltype(mk(sd))>::rank_v> r(sd.base, mk(sd).extensions()); auto* b0 = r.data_elements(); auto x0 = r.extensions(); with_src(r); if(r.data_elements() != b0 || !(r.extensions() == x0)) internal("array_ref changed"); }
+				if(fd == 'v') { auto v = mk(sd); auto b0 = v.base(); with_src(v); if(v.base() != b0) internal("base of the destination changed"); check_same(v, sd); }
+				else if(fd == 'r') { multi::array_ref<VT, std::decay_t<decltype(mk(sd))>::rank_v, VPtr> r(sd.base, mk(sd).extensions()); auto b0 = r.data_elements(); auto x0 = r.extensions(); with_src(r); if(r.data_elements() != b0 || !(r.extensions() == x0)) internal("array_ref changed"); }
 				else { std::abort(); }
 			} else {
 #ifndef TRACKED
-				if(fd == 'v') { auto v = mkl(sd); auto* b0 = v.base(); with_src(v); if(v.base() != b0) internal("base of the destination changed"); check_same(v, sd); }
+				if(fd == 'v') { auto v = mkl(sd); auto b0 = v.base(); with_src(v); if(v.base() != b0) internal("base of the destination changed"); check_same(v, sd); }
 				else { std::abort(); }
 #endif
 			}
@@ -300,18 +309,34 @@ static void x_rows(bool as_range, int rd, long nrows, long rowlen, std::vector<l
 	std::fprintf(fans, "ok\n");
 }
 
+// C11: with the bounds-tracking pointer every dereference outside the roots' storage is counted; one line per program
+static void report_oob() {
+#if PTR_KIND == 2
+	if(fancy::g_oob_deref != 0) { std::fprintf(fans, "OOB-DEREF %ld dereferences outside the storage\n", fancy::g_oob_deref); fancy::g_oob_deref = 0; }
+#endif
+}
+#if PTR_KIND == 2
+static bool in_roots(std::ptrdiff_t byte_off) {
+	long a = byte_off < NCELL * 4 ? static_cast<long>(byte_off / 4) : NCELL + static_cast<long>((byte_off - NCELL * 4) / 8);
+	if(byte_off < 0) return false;
+	for(auto const& r : g_roots) { if(a >= r.lo && a < r.hi) return true; }
+	return false;
+}
+#endif
+
 // executes one protocol line on the real library (generation and replay share this) --------------------------------
 static void exec_line(std::string const& line) {
 	std::fprintf(fprog, "%s\n", line.c_str()); std::fflush(fprog); std::fflush(fans);   // a crash must leave the offending line on disk
 	auto w = words_of(line);
 	if(w.empty() || w[0] == "#") return;
-	if(w[0] == "prog") { std::fprintf(fans, "%s\n", line.c_str()); reset_memory(); g_wins.clear(); return; }
+	if(w[0] == "prog") { report_oob(); std::fprintf(fans, "%s\n", line.c_str()); reset_memory(); g_wins.clear(); g_roots.clear(); return; }
 	if(w[0] == "root") {
 		int reg = std::stoi(w[1]); long base = std::stol(w[2]); int D = std::stoi(w[3]);
 		std::vector<Ex> ex; long ne = 1;
 		for(int k = 0; k < D; ++k) { ex.push_back(Ex{std::stol(w[4 + 2 * static_cast<std::size_t>(k)]), std::stol(w[5 + 2 * static_cast<std::size_t>(k)])}); ne *= ex.back().size(); }
 		Reg r; r.is_long = base >= NCELL; r.is_root = true;
-		r.v = make_root_any(ex, g_mem + (base - (r.is_long ? NCELL : 0)));
+		r.v = make_root_any(ex, make_ptr(base - (r.is_long ? NCELL : 0)));
+		g_roots.push_back(Win{base, base + ne});
 		regs[static_cast<std::size_t>(reg)] = r;
 		g_wins.push_back(Win{base - GUARD, base + ne + GUARD});
 		return;
@@ -345,13 +370,13 @@ static void exec_line(std::string const& line) {
 		if(c == "assign0") {
 			Reg const& D = regs[static_cast<std::size_t>(std::stoi(w[2]))]; long v = std::stol(w[3]);
 			auto const& s0 = std::get<VS<0>>(D.v);
-			multi::const_subarray<VT, 0, VT*> cs(s0.lay, s0.base);
+			multi::const_subarray<VT, 0, VPtr> cs(s0.lay, s0.base);
 			cs = VT(static_cast<int>(v));
 			std::fprintf(fans, "ok\n"); return;
 		}
 		if(c == "aref0") {
 			auto const& d0 = std::get<VS<0>>(regs[static_cast<std::size_t>(std::stoi(w[2]))].v); auto const& s0 = std::get<VS<0>>(regs[static_cast<std::size_t>(std::stoi(w[3]))].v);
-			multi::array_ref<VT, 0> rd(d0.base, {}); multi::array_ref<VT, 0> rs(s0.base, {});
+			multi::array_ref<VT, 0, VPtr> rd(d0.base, {}); multi::array_ref<VT, 0, VPtr> rs(s0.base, {});
 			rd = rs;
 			std::fprintf(fans, "ok\n"); return;
 		}
@@ -475,6 +500,9 @@ static long random_element_addr(int reg, Rng& rng) {
 		auto idxs = box(exts_of(v));
 		if(idxs.empty()) return -1;
 		auto const& idx = idxs[static_cast<std::size_t>(rng.range(0, static_cast<long>(idxs.size()) - 1))];
+#ifndef TRACKED
+		if(R.is_long) { using SS = std::decay_t<decltype(s)>; if constexpr(!std::is_same_v<SS, VS<5>> && !std::is_same_v<SS, VS<6>>) { auto lv = mkl(s); return static_cast<long>(addr_bracket(lv, idx.data()) - g_lmem) + NCELL; } }
+#endif
 		return uaddr(R, addr_bracket(v, idx.data()));
 	}, R.v);
 }
@@ -631,7 +659,16 @@ static bool long_coin(Rng& rng, int pct) { (void)rng.coin(pct); return false; } 
 static bool long_coin(Rng& rng, int pct) { return rng.coin(pct); }
 #endif
 
-static bool order_ok(char fa, bool la, char fb, bool lb) { return la == lb && ((fa == 'c') == (fb == 'c')); }
+// ordering needs operands of one element type and one pointer type: c is a pointer-to-const view; with fancy pointers an
+// owning array (form a) still has raw pointers
+static int ptr_class(char f) {
+	if(f == 'c') return 1;
+#if PTR_KIND != 0
+	if(f == 'a') return 2;
+#endif
+	return 0;
+}
+static bool order_ok(char fa, bool la, char fb, bool lb) { return la == lb && ptr_class(fa) == ptr_class(fb); }
 
 static char any_form(Rng& rng, Reg const& R) {
 	if(R.is_long) return rng.coin(70) ? 'v' : 'a';
@@ -738,11 +775,22 @@ int main(int argc, char** argv) {
 	if(!fprog || !fans) { std::perror("fopen"); return 2; }
 	// watchdog: a library change that makes a loop run away must end as a crash (reported, shrunk), not as a hang
 	alarm((argc >= 8 && std::string(argv[6]) == "--replay") ? 20 : static_cast<unsigned>(60 + nprog / 200));
-	g_store.assign(static_cast<std::size_t>(NCELL), VT(0)); g_lstore.assign(static_cast<std::size_t>(NCELL), 0);
-	g_mem = g_store.data(); g_lmem = g_lstore.data();
+	{
+		void* raw = ::operator new(static_cast<std::size_t>(NCELL) * 4 + static_cast<std::size_t>(NCELL) * sizeof(long), std::align_val_t{alignof(long)});
+		g_mem = new(raw) VT[static_cast<std::size_t>(NCELL)];
+		g_lmem = new(static_cast<char*>(raw) + NCELL * 4) long[static_cast<std::size_t>(NCELL)];
+		g_vr_origin = g_mem;
+#if PTR_KIND != 0
+		fancy::g_origin = raw;
+#endif
+#if PTR_KIND == 2
+		fancy::g_in_bounds = &in_roots;
+#endif
+	}
 	reset_memory();
 	if(argc >= 8 && std::string(argv[6]) == "--replay") run_replay(argv[7]);
 	else run_generated(seed, nprog, mode);
+	report_oob();
 	std::fclose(fprog); std::fclose(fans);
 	return g_internal ? 3 : 0;
 }
